@@ -22,6 +22,11 @@ import (
 // porcupine.  cache.go is built with statement-level preemption points, so a
 // read that bypasses the actor goroutine sees half-applied states.
 type Linear struct {
+	// Big > 0: the "large state" profile - one writer alternates between
+	// complete states of Big objects (sizes vary over three orders of magnitude
+	// across runs), readers must only ever see one of those states.
+	Big     int              `json:"big,omitempty"`
+	BigOps  int              `json:"big_ops,omitempty"`
 	Prop    string           `json:"prop"`
 	Filter  world.FilterSpec `json:"filter"`
 	Writers [][]CacheOp      `json:"writers"`
@@ -54,6 +59,23 @@ var lastFilter world.FilterSpec
 func genC15(g GenCtx) interface{} {
 	rng := g.Rng
 	sc := &Linear{Prop: g.Prop}
+	if g.Idx%8 == 7 {
+		// size is a knob like any other: a batching / chunking / memoising
+		// optimisation only shows above its threshold
+		sc.Big = pickInt(rng, 9, 33, 65, 130, 260, 520, 1030)
+		sc.BigOps = 2 + rng.Intn(3)
+		nr := 1 + rng.Intn(3)
+		for r := 0; r < nr; r++ {
+			var ops []string
+			for i := 2 + rng.Intn(4); i > 0; i-- {
+				ops = append(ops, "list")
+			}
+			sc.Readers = append(sc.Readers, ops)
+		}
+		sc.Sim = SimCfg{Strategy: randStrategy(rng, []string{"newCache>c.run", "runC15>func"}), PermuteMaps: true, MaxSteps: 3000000, EstSteps: 20000}
+		sc.Sim.Strategy.StallPermille = 0
+		return sc
+	}
 	sc.Filter = randFilter(rng)
 	nw := 1 + rng.Intn(2)
 	nkeys := 1 + rng.Intn(3)
@@ -120,10 +142,97 @@ func genC15(g GenCtx) interface{} {
 	return sc
 }
 
+// runC15Big: one writer replaces the whole content by complete states of
+// sc.Big objects; every List() of every reader must equal one of the states
+// the writer produced (never a half-applied relist).
+func runC15Big(sc *Linear) {
+	ctx, cancel := context.WithCancel(context.Background())
+	defer cancel()
+	c := kcache.VerifNewCache(ctx, world.NewLog(false), make(chan struct{}), world.FilterSpec{}.Build())
+	states := map[string]int{"": 0} // fingerprint of a complete state -> its number (0 = empty)
+	fp := func(ids []string) string {
+		if len(ids) == 0 {
+			return ""
+		}
+		// all objects of a state carry that state's version: the version multiset identifies it
+		vers := map[string]int{}
+		for _, id := range ids {
+			at := strings.Index(id, "@")
+			br := strings.Index(id, "{")
+			vers[id[at+1:br]]++
+		}
+		var ks []string
+		for v, n := range vers {
+			ks = append(ks, fmt.Sprintf("v%s x%d", v, n))
+		}
+		sort.Strings(ks)
+		return strings.Join(ks, ",")
+	}
+	done := make(chan struct{})
+	left := 1 + len(sc.Readers)
+	fin := func() {
+		left--
+		if left == 0 {
+			close(done)
+		}
+	}
+	var lists [][]world.Spec
+	for i := 1; i <= sc.BigOps; i++ {
+		var l []world.Spec
+		n := sc.Big
+		if i%2 == 0 {
+			n = sc.Big - sc.Big/3 // every other state is smaller: objects vanish, too
+		}
+		for k := 0; k < n; k++ {
+			l = append(l, world.Spec{NS: "n" + strconv.Itoa(k%3), Name: "k" + strconv.Itoa(k), RV: strconv.Itoa(i)})
+		}
+		lists = append(lists, l)
+		states[fp(world.SpecIDs(l))] = i
+	}
+	go func() {
+		defer fin()
+		for _, l := range lists {
+			if _, err := c.Sync(objsOf(l)); err != nil {
+				detsim.Fail("cache-op-error", "sync on a running cache: %v", err)
+			}
+		}
+	}()
+	for r := range sc.Readers {
+		ops := sc.Readers[r]
+		go func() {
+			defer fin()
+			last := 0
+			for range ops {
+				objs, err := c.List()
+				if err != nil {
+					detsim.Fail("cache-read-error", "List on a running cache: %v", err)
+				}
+				f := fp(world.IDs(objs))
+				n, ok := states[f]
+				if !ok {
+					detsim.Fail("torn-read", "List() returned %d objects that mix several complete states (objects per version: %s); the writer only ever installed complete states of %d / %d objects", len(objs), f, sc.Big, sc.Big-sc.Big/3)
+				}
+				if n < last {
+					detsim.Fail("read-went-backwards", "a reader saw state %d after state %d", n, last)
+				}
+				last = n
+				detsim.Yield("reader")
+			}
+		}()
+	}
+	if !world.WaitClosed(done, time.Hour) {
+		detsim.Fail("wedge", "cache clients did not finish")
+	}
+}
+
 func runC15(sci interface{}) {
 	sc := sci.(*Linear)
 	lastHistory = nil
 	lastFilter = sc.Filter
+	if sc.Big > 0 {
+		runC15Big(sc)
+		return
+	}
 	ctx, cancel := context.WithCancel(context.Background())
 	defer cancel()
 	stopch := make(chan struct{})
